@@ -11,6 +11,7 @@ import Mathlib.Tactic.Linarith
   computes, for every thread count `T ≥ 1`, the same value as its serial reference.
 -/
 namespace Ark.Par
+set_option linter.unusedSectionVars false
 
 /-! ## 0. lists: `chunks`, `enumFrom`, `allSome`, `allOk` -/
 
@@ -201,7 +202,7 @@ theorem dps_getElem (l : List F) (g p : F) :
     simp only [List.getD_cons_zero, pow_zero, mul_one, List.cons.injEq, true_and]
     apply List.map_congr_left
     intro i _
-    simp only [Function.comp, List.getD_cons_succ]
+    simp only [Function.comp, List.getD_cons_succ, Nat.succ_eq_add_one, pow_succ]
     ring
 
 /-! ## 4. Horner in chunks -/
@@ -269,6 +270,477 @@ theorem horner_all_zero (l : List F) (h : ∀ c ∈ l, c = 0) (x : F) : hornerEv
   | nil => rfl
   | cons a as ih =>
     rw [horner_cons, ih (fun c hc => h c (by simp [hc])), h a (by simp)]; simp
+
+/-! ## 5. powers: `powersSeq`, `computePowers*`, `logPowers`, `rootsRec` -/
+
+theorem powersSeq_eq (n : Nat) (g cur : F) :
+    powersSeq n g cur = (List.range n).map (fun i => cur * g ^ i) := by
+  induction n generalizing cur with
+  | zero => rfl
+  | succ n ih =>
+    rw [powersSeq, ih, List.range_succ_eq_map, List.map_cons, List.map_map]
+    simp only [pow_zero, mul_one, List.cons.injEq, true_and]
+    apply List.map_congr_left
+    intro i _
+    simp only [Function.comp, Nat.succ_eq_add_one, pow_succ]; ring
+
+theorem cpamc_eq_powersSeq (n : Nat) (g v : F) :
+    computePowersAndMulByConstSerial n g v = powersSeq n g v := by
+  induction n generalizing v with
+  | zero => rfl
+  | succ n ih => rw [computePowersAndMulByConstSerial, powersSeq, ih]
+
+theorem cpamc_eq (n : Nat) (g v : F) :
+    computePowersAndMulByConstSerial n g v = (List.range n).map (fun i => v * g ^ i) := by
+  rw [cpamc_eq_powersSeq, powersSeq_eq]
+
+theorem computePowersSerial_eq (n : Nat) (g : F) :
+    computePowersSerial n g = (List.range n).map (fun i => g ^ i) := by
+  unfold computePowersSerial; rw [cpamc_eq]; simp
+
+theorem powersSeq_one (n : Nat) (g : F) : powersSeq n g 1 = (List.range n).map (fun i => g ^ i) := by
+  rw [powersSeq_eq]; simp
+
+theorem logPowers_eq (n : Nat) (w : F) :
+    logPowers n w = (List.range n).map (fun i => w ^ (2 ^ i)) := by
+  induction n generalizing w with
+  | zero => rfl
+  | succ n ih =>
+    rw [logPowers, ih, List.range_succ_eq_map, List.map_cons, List.map_map]
+    simp only [pow_zero, pow_one, List.cons.injEq, true_and]
+    apply List.map_congr_left
+    intro i _
+    simp only [Function.comp, Nat.succ_eq_add_one]
+    rw [← pow_two, ← pow_mul, ← pow_succ']
+
+theorem logPowers_length (n : Nat) (w : F) : (logPowers n w).length = n := by
+  rw [logPowers_eq]; simp
+
+theorem logPowers_take (n m : Nat) (w : F) (h : m ≤ n) :
+    (logPowers n w).take m = logPowers m w := by
+  induction m generalizing n w with
+  | zero => simp [logPowers]
+  | succ m ih =>
+    cases n with
+    | zero => omega
+    | succ n => simp only [logPowers, List.take_succ_cons]; rw [ih n _ (by omega)]
+
+theorem logPowers_drop (n m : Nat) (w : F) (h : m ≤ n) :
+    (logPowers n w).drop m = logPowers (n - m) (w ^ (2 ^ m)) := by
+  induction m generalizing n w with
+  | zero => simp
+  | succ m ih =>
+    cases n with
+    | zero => omega
+    | succ n =>
+      simp only [logPowers, List.drop_succ_cons]
+      rw [ih n _ (by omega), Nat.succ_sub_succ, ← pow_two, ← pow_mul, ← pow_succ']
+
+/-- the recombination `out[j·|lo| + i] = hi[j] * lo[i]` of two tables of powers -/
+theorem roots_combine (w : F) (a b : Nat) :
+    (((List.range a).map (fun j => (w ^ b) ^ j)).map
+        (fun h => ((List.range b).map (fun i => w ^ i)).map (fun l => h * l))).flatten
+      = (List.range (a * b)).map (fun i => w ^ i) := by
+  rw [← flatten_range_blocks (fun i => w ^ i) a b]
+  congr 1
+  rw [List.map_map]
+  apply List.map_congr_left
+  intro j _
+  simp only [Function.comp, List.map_map]
+  apply List.map_congr_left
+  intro i _
+  simp only [Function.comp]
+  rw [← pow_mul, ← pow_add, Nat.mul_comm b j]
+
+theorem rootsRec_eq : ∀ (fuel n : Nat) (w : F), n ≤ fuel →
+    rootsRec fuel (logPowers n w) = powersSeq (2 ^ n) w 1 := by
+  intro fuel
+  induction fuel with
+  | zero =>
+    intro n w h
+    have : n = 0 := by omega
+    subst this
+    simp [rootsRec, logPowers, powersSeq]
+  | succ fuel ih =>
+    intro n w h
+    simp only [rootsRec, logPowers_length]
+    split
+    · cases n with
+      | zero => simp [logPowers, powersSeq]
+      | succ n => simp [logPowers]
+    · next hn =>
+      simp only [LOG_ROOTS_OF_UNITY_PARALLEL_SIZE] at hn
+      have hm1 : (n + 1) / 2 ≤ n := by omega
+      rw [logPowers_take _ _ _ hm1, logPowers_drop _ _ _ hm1, ih _ _ (by omega), ih _ _ (by omega)]
+      rw [powersSeq_one, powersSeq_one, powersSeq_one, roots_combine, ← pow_add,
+        Nat.sub_add_cancel hm1]
+
+theorem log2Ceil_two_pow (k : Nat) : log2Ceil (2 ^ k) = k := by
+  unfold log2Ceil
+  cases k with
+  | zero => simp
+  | succ k =>
+    have h2 : 2 ≤ 2 ^ (k + 1) := by
+      calc 2 = 2 ^ 1 := rfl
+        _ ≤ 2 ^ (k + 1) := Nat.pow_le_pow_right (by omega) (by omega)
+    rw [if_neg (by omega)]
+    have hne : 2 ^ (k + 1) - 1 ≠ 0 := by omega
+    have h1 : (2 ^ (k + 1) - 1).log2 < k + 1 := (Nat.log2_lt hne).2 (by omega)
+    have h3 : ¬ (2 ^ (k + 1) - 1).log2 < k := by
+      rw [Nat.log2_lt hne]
+      have : 2 ^ (k + 1) = 2 * 2 ^ k := by rw [pow_succ]; ring
+      have : 0 < 2 ^ k := Nat.pos_of_ne_zero (by simp)
+      omega
+    omega
+
+theorem rootsOfUnityPar_eq (k : Nat) (root : F) :
+    rootsOfUnityPar (2 ^ k) root = rootsOfUnitySerial (2 ^ k) root := by
+  unfold rootsOfUnityPar rootsOfUnitySerial
+  simp only [log2Ceil_two_pow]
+  split
+  · rfl
+  · next hk =>
+    simp only [LOG_ROOTS_OF_UNITY_PARALLEL_SIZE] at hk
+    rw [logPowers_length, rootsRec_eq _ _ _ (Nat.le_refl _), computePowersSerial, cpamc_eq_powersSeq]
+    congr 1
+    obtain ⟨j, rfl⟩ : ∃ j, k = j + 1 := ⟨k - 1, by omega⟩
+    rw [pow_succ]; simp
+
+/-! ## 6. `compute_powers` (dead code): a prefix of the serial table -/
+
+theorem computePowersPar_small (T size : Nat) (g : F) (h : size < 128) :
+    computePowersPar T size g = computePowersSerial size g := by
+  unfold computePowersPar
+  rw [if_pos (by simpa [MIN_PARALLEL_CHUNK_SIZE] using h)]
+
+/-- with `chunk = max (size / T) 128`, `compute_powers` returns the first
+    `(size / chunk) * chunk` powers only -/
+theorem computePowersPar_large (T size : Nat) (g : F) (h : 128 ≤ size) :
+    computePowersPar T size g
+      = computePowersSerial (size / max (size / T) 128 * max (size / T) 128) g := by
+  unfold computePowersPar
+  rw [if_neg (by simpa [MIN_PARALLEL_CHUNK_SIZE] using h)]
+  simp only [MIN_PARALLEL_CHUNK_SIZE]
+  generalize hk : max (size / T) 128 = k
+  have hk1 : 1 ≤ k := by omega
+  rw [computePowersSerial_eq, ← flatten_range_blocks (fun i => g ^ i) (size / k) k]
+  congr 1
+  apply List.map_congr_left
+  intro i hi
+  have hi' : i < size / k := List.mem_range.1 hi
+  have hle : (i + 1) * k ≤ size := by
+    calc (i + 1) * k ≤ (size / k) * k := Nat.mul_le_mul_right _ hi'
+      _ ≤ size := Nat.div_mul_le_self _ _
+  have hmin : min (size - i * k) k = k := by
+    apply Nat.min_eq_right
+    rw [Nat.add_mul] at hle; omega
+  rw [hmin, cpamc_eq, pow_eq]
+  apply List.map_congr_left
+  intro j _
+  rw [pow_add]
+
+theorem computePowersSerial_length (n : Nat) (g : F) : (computePowersSerial n g).length = n := by
+  rw [computePowersSerial_eq]; simp
+
+theorem computePowersSerial_take (n m : Nat) (g : F) (h : m ≤ n) :
+    (computePowersSerial n g).take m = computePowersSerial m g := by
+  rw [computePowersSerial_eq, computePowersSerial_eq, ← List.map_take, List.take_range,
+    Nat.min_eq_left h]
+
+/-! ## 7. `parallel_fft` -/
+
+theorem cosetCoeff_eq (l : List F) (S : Nat) (step : F) (i : Nat) :
+    ∀ (n c0 : Nat) (coeff elt : F), (∀ d, d < n → i + (c0 + d) * S < l.length) →
+      cosetCoeff l.toArray S step i n c0 (coeff, elt)
+        = .ok (coeff + ∑ d ∈ Finset.range n, l.getD (i + (c0 + d) * S) 0 * (elt * step ^ d),
+               elt * step ^ n) := by
+  intro n
+  induction n with
+  | zero => intro c0 coeff elt _; simp [cosetCoeff]
+  | succ n ih =>
+    intro c0 coeff elt hb
+    have hlt : i + c0 * S < l.length := by simpa using hb 0 (by omega)
+    have hx : l.toArray[i + c0 * S]? = some (l.getD (i + c0 * S) 0) := by
+      simp [List.getD_eq_getElem?_getD, List.getElem?_eq_getElem hlt]
+    simp only [cosetCoeff, hx]
+    rw [ih (c0 + 1) _ _ (fun d hd => by
+      have := hb (d + 1) (by omega)
+      rwa [show c0 + 1 + d = c0 + (d + 1) by omega])]
+    rw [Finset.sum_range_succ']
+    simp only [Nat.add_zero, pow_zero, mul_one]
+    congr 2
+    · rw [add_assoc, add_comm (l.getD (i + c0 * S) 0 * elt)]
+      congr 2
+      apply Finset.sum_congr rfl
+      intro d _
+      rw [show c0 + 1 + d = c0 + (d + 1) by omega, pow_succ]; ring
+    · rw [pow_succ]; ring
+
+theorem cosetPoly_eq (l : List F) (S C : Nat) (oK step : F) :
+    ∀ (n i0 : Nat) (elt : F), (∀ d c, d < n → c < C → i0 + d + c * S < l.length) →
+      cosetPoly l.toArray S C oK step n i0 elt
+        = .ok ((List.range n).map (fun d => ∑ c ∈ Finset.range C,
+            l.getD (i0 + d + c * S) 0 * (elt * (step ^ C * oK) ^ d * step ^ c))) := by
+  intro n
+  induction n with
+  | zero => intro i0 elt _; rfl
+  | succ n ih =>
+    intro i0 elt hb
+    have h1 := cosetCoeff_eq l S step i0 C 0 0 elt (fun c hc => by
+      have := hb 0 c (by omega) hc; simpa using this)
+    simp only [cosetPoly, h1]
+    rw [ih (i0 + 1) _ (fun d c hd hc => by
+      have := hb (d + 1) c (by omega) hc
+      rwa [show i0 + 1 + d = i0 + (d + 1) by omega])]
+    simp only [List.range_succ_eq_map, List.map_cons, List.map_map, Nat.add_zero, pow_zero,
+      mul_one, zero_add, Outcome.ok.injEq, List.cons.injEq, true_and]
+    apply List.map_congr_left
+    intro d _
+    simp only [Function.comp]
+    apply Finset.sum_congr rfl
+    intro c _
+    rw [show i0 + 1 + d = i0 + (d + 1) by omega, Nat.succ_eq_add_one, pow_succ]; ring
+
+/-- the coefficients of the `k`-th coset polynomial as produced by the two nested loops -/
+def cosetRaw (a : List F) (ω : F) (C S k : Nat) : List F :=
+  (List.range S).map (fun i => ∑ c ∈ Finset.range C,
+    a.getD (0 + i + c * S) 0 * (1 * ((ω ^ (k * S)) ^ C * ω ^ k) ^ i * (ω ^ (k * S)) ^ c))
+
+theorem cosetRaw_length (a : List F) (ω : F) (C S k : Nat) : (cosetRaw a ω C S k).length = S := by
+  simp [cosetRaw]
+
+/-- `parallel_fft` with the results of the sub-FFTs abstracted as `R k` -/
+theorem parallelFft_general (sfft : List F → F → Nat → Outcome (List F)) (a : List F) (ω : F)
+    (logN logCpus S : Nat) (hle : logCpus ≤ logN) (hm : a.length = S * 2 ^ logCpus)
+    (R : Nat → List F)
+    (hR : ∀ k, k < 2 ^ logCpus →
+      sfft (cosetRaw a ω (2 ^ logCpus) S k) (ω ^ 2 ^ logCpus) (kAdicity 2 S) = .ok (R k))
+    (hlen : ∀ k, k < 2 ^ logCpus → (R k).length = S) :
+    parallelFft sfft a ω logN logCpus
+      = .ok ((List.range a.length).map
+          (fun t => (R (t % 2 ^ logCpus)).getD (t / 2 ^ logCpus) 0)) := by
+  have hC : 0 < 2 ^ logCpus := Nat.pos_of_ne_zero (by simp)
+  have hmod : a.length % 2 ^ logCpus = 0 := by rw [hm]; exact Nat.mul_mod_left _ _
+  have hdiv : a.length / 2 ^ logCpus = S := by rw [hm]; exact Nat.mul_div_cancel _ hC
+  have hcp : ∀ k, cosetPoly a.toArray S (2 ^ logCpus) (ω ^ k) (ω ^ (k * S)) S 0 1
+      = .ok (cosetRaw a ω (2 ^ logCpus) S k) := by
+    intro k
+    rw [cosetPoly_eq a S (2 ^ logCpus) _ _ S 0 1 (fun d c hd hc => by
+      rw [hm]
+      calc 0 + d + c * S < S + c * S := by omega
+        _ = (c + 1) * S := by ring
+        _ ≤ 2 ^ logCpus * S := Nat.mul_le_mul_right _ hc
+        _ = S * 2 ^ logCpus := Nat.mul_comm _ _)]
+    rfl
+  have htmp := List.map_congr_left (l := List.range (2 ^ logCpus))
+    (f := fun k => sfft (cosetRaw a ω (2 ^ logCpus) S k) (ω ^ 2 ^ logCpus) (kAdicity 2 S))
+    (g := fun k => Outcome.ok (R k)) (fun k hk => hR k (List.mem_range.1 hk))
+  unfold parallelFft
+  rw [if_neg (by omega)]
+  simp only [hmod, ne_eq, not_true_eq_false, if_false, hdiv, pow_eq, hcp, htmp, allOk_map_ok]
+  rw [← allOk_map_ok]
+  congr 1
+  apply List.map_congr_left
+  intro t ht
+  have ht' : t < S * 2 ^ logCpus := by rw [← hm]; exact List.mem_range.1 ht
+  have h1 : t % 2 ^ logCpus < 2 ^ logCpus := Nat.mod_lt _ hC
+  have h2 : t / 2 ^ logCpus < S := (Nat.div_lt_iff_lt_mul hC).2 ht'
+  have h3 : t / 2 ^ logCpus < (R (t % 2 ^ logCpus)).length := by rw [hlen _ h1]; exact h2
+  simp [h1, List.getD_eq_getElem?_getD, List.getElem?_eq_getElem h3]
+
+theorem horner_map_range (n : Nat) (f : Nat → F) (x : F) :
+    hornerEvaluate ((List.range n).map f) x = ∑ i ∈ Finset.range n, f i * x ^ i := by
+  rw [horner_eq_sum, List.length_map, List.length_range]
+  apply Finset.sum_congr rfl
+  intro i hi
+  have : i < n := Finset.mem_range.1 hi
+  simp [List.getD_eq_getElem?_getD, this]
+
+theorem sum_range_mul_split (f : Nat → F) (S C : Nat) :
+    ∑ n ∈ Finset.range (S * C), f n
+      = ∑ i ∈ Finset.range S, ∑ c ∈ Finset.range C, f (i + c * S) := by
+  induction C with
+  | zero => simp
+  | succ C ih =>
+    rw [Nat.mul_succ, Finset.sum_range_add, ih]
+    simp only [Finset.sum_range_succ, Finset.sum_add_distrib]
+    congr 1
+    apply Finset.sum_congr rfl
+    intro i _
+    rw [Nat.mul_comm C S, Nat.add_comm]
+
+/-- the decimation identity behind `parallel_fft`: the `j`-th value of the sub-DFT of the `k`-th
+    coset polynomial is the `(j·C + k)`-th value of the full DFT -/
+theorem dft_split (a : List F) (ω : F) (S C : Nat) (hm : a.length = S * C)
+    (hω : ω ^ a.length = 1) (k j : Nat) :
+    hornerEvaluate (cosetRaw a ω C S k) ((ω ^ C) ^ j) = hornerEvaluate a (ω ^ (j * C + k)) := by
+  rw [hm] at hω
+  unfold cosetRaw
+  rw [horner_map_range, horner_eq_sum a, hm, sum_range_mul_split]
+  apply Finset.sum_congr rfl
+  intro i _
+  rw [Finset.sum_mul]
+  apply Finset.sum_congr rfl
+  intro c _
+  have e1 : (ω ^ (k * S)) ^ C = 1 := by
+    rw [← pow_mul, Nat.mul_assoc, Nat.mul_comm k, pow_mul, hω, one_pow]
+  have e2 : (ω ^ (j * C + k)) ^ (i + c * S)
+      = ω ^ (k * i + k * S * c + C * j * i) * (ω ^ (S * C)) ^ (j * c) := by
+    rw [← pow_mul, ← pow_mul, ← pow_add]; congr 1; ring
+  rw [e1, e2, hω, Nat.zero_add]
+  simp only [one_mul, one_pow, mul_one]
+  rw [mul_assoc]
+  congr 1
+  rw [← pow_mul, ← pow_mul, ← pow_mul, ← pow_mul, ← pow_add, ← pow_add]
+  congr 1; ring
+
+theorem naiveDft_eq (a : List F) (ω : F) :
+    naiveDft a ω = (List.range a.length).map (fun t => hornerEvaluate a (ω ^ t)) := by
+  unfold naiveDft
+  rw [powersSeq_one, List.map_map]; rfl
+
+theorem naiveDft_length (a : List F) (ω : F) : (naiveDft a ω).length = a.length := by
+  rw [naiveDft_eq]; simp
+
+theorem parallelFft_eq (sfft : List F → F → Nat → Outcome (List F)) (a : List F) (ω : F)
+    (logN logCpus : Nat) (hle : logCpus ≤ logN) (hdvd : 2 ^ logCpus ∣ a.length)
+    (hω : ω ^ a.length = 1)
+    (hs : ∀ b : List F, b.length = a.length / 2 ^ logCpus →
+      sfft b (ω ^ 2 ^ logCpus) (kAdicity 2 (a.length / 2 ^ logCpus))
+        = .ok (naiveDft b (ω ^ 2 ^ logCpus))) :
+    parallelFft sfft a ω logN logCpus = .ok (naiveDft a ω) := by
+  have hC : 0 < 2 ^ logCpus := Nat.pos_of_ne_zero (by simp)
+  have hm : a.length = a.length / 2 ^ logCpus * 2 ^ logCpus := (Nat.div_mul_cancel hdvd).symm
+  rw [parallelFft_general sfft a ω logN logCpus _ hle hm
+    (fun k => naiveDft (cosetRaw a ω (2 ^ logCpus) (a.length / 2 ^ logCpus) k) (ω ^ 2 ^ logCpus))
+    (fun k _ => hs _ (cosetRaw_length _ _ _ _ _))
+    (fun k _ => by rw [naiveDft_length, cosetRaw_length])]
+  rw [naiveDft_eq a]
+  congr 1
+  apply List.map_congr_left
+  intro t ht
+  have ht' : t < a.length := List.mem_range.1 ht
+  have h2 : t / 2 ^ logCpus < a.length / 2 ^ logCpus :=
+    (Nat.div_lt_iff_lt_mul hC).2 (by rw [← hm]; exact ht')
+  rw [naiveDft_eq, cosetRaw_length]
+  simp only [List.getD_eq_getElem?_getD, List.getElem?_map, List.getElem?_range h2, Option.map_some,
+    Option.getD_some]
+  rw [dft_split a ω _ _ hm hω, Nat.div_add_mod']
+
+/-- panic-freedom of `parallel_fft`: the two `assert`s are the only panics -/
+theorem parallelFft_ok (sfft : List F → F → Nat → Outcome (List F)) (a : List F) (ω : F)
+    (logN logCpus : Nat) (hle : logCpus ≤ logN) (hdvd : 2 ^ logCpus ∣ a.length)
+    (hs : ∀ b : List F, b.length = a.length / 2 ^ logCpus →
+      ∃ r, sfft b (ω ^ 2 ^ logCpus) (kAdicity 2 (a.length / 2 ^ logCpus)) = .ok r ∧
+        r.length = a.length / 2 ^ logCpus) :
+    ∃ r, parallelFft sfft a ω logN logCpus = .ok r ∧ r.length = a.length := by
+  have hm : a.length = a.length / 2 ^ logCpus * 2 ^ logCpus := (Nat.div_mul_cancel hdvd).symm
+  have hc := fun k => hs (cosetRaw a ω (2 ^ logCpus) (a.length / 2 ^ logCpus) k)
+    (cosetRaw_length _ _ _ _ _)
+  refine ⟨_, parallelFft_general sfft a ω logN logCpus _ hle hm
+    (fun k => Classical.choose (hc k))
+    (fun k _ => (Classical.choose_spec (hc k)).1)
+    (fun k _ => (Classical.choose_spec (hc k)).2), by simp⟩
+
+/-! ## 8. `best_fft` and the mixed-radix wrappers -/
+
+theorem resize_length (l : List F) (n : Nat) : (resize l n).length = n := by
+  unfold resize
+  simp only [List.length_append, List.length_take, List.length_replicate]; omega
+
+theorem distributePowersPar_eq (T : Nat) (coeffs : List F) (g c : F) :
+    distributePowersPar T coeffs g c = distributePowersSerial coeffs g c := by
+  unfold distributePowersPar chunks
+  have h := dps_chunks (max (coeffs.length / T) 1024) (by omega) g c coeffs.length coeffs 0
+    (Nat.le_refl _)
+  simp only [Nat.zero_mul, pow_zero, mul_one] at h
+  exact h
+
+theorem hornerChunked_eq (T : Nat) (coeffs : List F) (x : F) :
+    hornerChunked T coeffs x = hornerEvaluate coeffs x := by
+  unfold hornerChunked chunks
+  have h := horner_chunks (max (coeffs.length / T) MIN_ELEMENTS_PER_THREAD)
+    (by simp only [MIN_ELEMENTS_PER_THREAD]; omega) x coeffs.length coeffs 0 (Nat.le_refl _)
+  simp only [Nat.zero_mul, pow_zero, mul_one] at h
+  exact h
+
+theorem bestFft_eq (T : Nat) (sfft : List F → F → Nat → Outcome (List F)) (a : List F) (ω : F)
+    (logN : Nat)
+    (hpar : log2Floor T < logN →
+      2 ^ log2Floor T ∣ a.length ∧ ω ^ a.length = 1 ∧
+      (∀ b : List F, b.length = a.length / 2 ^ log2Floor T →
+        sfft b (ω ^ 2 ^ log2Floor T) (kAdicity 2 (a.length / 2 ^ log2Floor T))
+          = .ok (naiveDft b (ω ^ 2 ^ log2Floor T))) ∧
+      sfft a ω logN = .ok (naiveDft a ω)) :
+    bestFft T sfft a ω logN = sfft a ω logN := by
+  unfold bestFft
+  simp only
+  split
+  · rfl
+  · next h =>
+    obtain ⟨hd, hω, hs, hf⟩ := hpar (by omega)
+    rw [hf, parallelFft_eq sfft a ω logN _ (by omega) hd hω hs]
+
+/-- what `best_fft` / the mixed-radix wrappers need from the `serial_fft` function pointer on a
+    domain of `n` points generated by `ω`, when `T` threads are available: nothing if the serial
+    branch is taken (`logN ≤ ⌊log₂ T⌋`); otherwise `2^⌊log₂ T⌋ ∣ n` (the second `assert` of
+    `parallel_fft`; implied by `2^logN ∣ n`), `ω^n = 1`, and `sfft` is a DFT both on the `n`-point
+    input and on the `n / 2^⌊log₂ T⌋`-point coset polynomials with generator `ω^(2^⌊log₂ T⌋)` -/
+def SerialFftSpec (T : Nat) (sfft : List F → F → Nat → Outcome (List F)) (n : Nat) (ω : F)
+    (logN : Nat) : Prop :=
+  log2Floor T < logN →
+    2 ^ log2Floor T ∣ n ∧ ω ^ n = 1 ∧
+    (∀ b : List F, b.length = n / 2 ^ log2Floor T →
+      sfft b (ω ^ 2 ^ log2Floor T) (kAdicity 2 (n / 2 ^ log2Floor T))
+        = .ok (naiveDft b (ω ^ 2 ^ log2Floor T))) ∧
+    (∀ b : List F, b.length = n → sfft b ω logN = .ok (naiveDft b ω))
+
+theorem bestFft_eq_of_spec (T : Nat) (sfft : List F → F → Nat → Outcome (List F)) (a : List F)
+    (ω : F) (logN : Nat) (h : SerialFftSpec T sfft a.length ω logN) :
+    bestFft T sfft a ω logN = sfft a ω logN :=
+  bestFft_eq T sfft a ω logN (fun hl => by
+    obtain ⟨h1, h2, h3, h4⟩ := h hl
+    exact ⟨h1, h2, h3, h4 a rfl⟩)
+
+theorem mixedFftPar_eq (T : Nat) (sfft : List F → F → Nat → Outcome (List F)) (d : MixedDomain F)
+    (coeffs : List F) (h : SerialFftSpec T sfft d.size d.groupGen d.logSizeOfGroup) :
+    mixedFftPar T sfft d coeffs = mixedFftSerial sfft d coeffs := by
+  unfold mixedFftPar mixedFftSerial
+  simp only [distributePowersPar_eq]
+  exact bestFft_eq_of_spec T sfft _ _ _ (by rw [resize_length]; exact h)
+
+theorem mixedIfftPar_eq (T : Nat) (sfft : List F → F → Nat → Outcome (List F)) (d : MixedDomain F)
+    (evals : List F) (h : SerialFftSpec T sfft d.size d.groupGenInv d.logSizeOfGroup) :
+    mixedIfftPar T sfft d evals = mixedIfftSerial sfft d evals := by
+  unfold mixedIfftPar mixedIfftSerial
+  rw [bestFft_eq_of_spec T sfft _ _ _ (by rw [resize_length]; exact h)]
+  simp only [distributePowersPar_eq]
+
+/-! ## 9. `evaluate` -/
+
+theorem polyIsZero_iff (coeffs : List F) : polyIsZero coeffs = true ↔ ∀ c ∈ coeffs, c = 0 := by
+  unfold polyIsZero
+  cases coeffs with
+  | nil => simp
+  | cons a as => simp
+
+theorem evaluateSerial_eq_horner (coeffs : List F) (x : F) :
+    evaluateSerial coeffs x = hornerEvaluate coeffs x := by
+  unfold evaluateSerial
+  split
+  · next h => rw [horner_all_zero coeffs ((polyIsZero_iff coeffs).1 h)]
+  · split
+    · next hx =>
+      subst hx
+      cases coeffs with
+      | nil => rfl
+      | cons c cs => simp [horner_cons]
+    · rfl
+
+theorem evaluatePar_eq_serial (T : Nat) (coeffs : List F) (x : F) :
+    evaluatePar T coeffs x = evaluateSerial coeffs x := by
+  unfold evaluatePar evaluateSerial
+  rw [hornerChunked_eq]
 
 end Field
 end Ark.Par
